@@ -497,13 +497,17 @@ func Permuted(t *types.Type, name string) *types.Type {
 
 // ---- arbitrary well-typed values
 
+// StrPoolQuick keeps the quick tier's three strings in the thorough tier too
+// (for harnesses that quantify structure, not string contents).
+var StrPoolQuick = false
+
 var strPool = [...]string{"", "a\"\\\n", "é晓", "hello", "a", "\xff"}
 
 // AnyStr: a selector-chosen concrete string (ASCII, multi-byte, needing
 // escapes, invalid UTF-8) or, in dedicated harnesses, symbolic bytes.
 func AnyStr(name string) string {
 	n := 3
-	if sv.Thorough() {
+	if sv.Thorough() && !StrPoolQuick {
 		n = len(strPool)
 	}
 	return strPool[sv.Choice(name+".str", n)]
